@@ -177,7 +177,7 @@ impl ProbeSpace {
         let h = |l: &[(&str, &str)]| -> Vec<(String, String)> { l.iter().map(|(a, b)| (a.to_string(), b.to_string())).collect() };
         ProbeSpace {
             schemes: vec![s("http"), s("https"), None, s("ftp")],
-            hosts: vec![s("a.example"), s("A.Example"), s("cat.example"), s("cow.example"), s("Cat.Example"), s("other.org"), None, s("cat.example.org")],
+            hosts: vec![s("a.example"), s("A.Example"), s("cat.example"), s("cow.example"), s("Cat.Example"), s("cat.Example"), s("other.org"), None, s("cat.example.org")],
             ips: vec![
                 s("10.0.0.1"),
                 s("8.8.8.8"),
@@ -230,6 +230,8 @@ impl ProbeSpace {
                 "/b".into(),
                 "/a/".into(),
                 "/a/b/c".into(),
+                "/A/b".into(),
+                "/a/b/B".into(),
                 "/a?x=2".into(),
             ],
         }
@@ -611,6 +613,14 @@ pub fn deviations() -> Vec<(usize, String, Box<dyn Fn(&mut RuleSpec) + Send + Sy
             r.markers.push(("h".into(), "[a-z]+".into()));
         }),
     );
+    add(
+        1,
+        "host=@h.Example(cat|dog)",
+        Box::new(|r| {
+            r.host = Some("@h.Example".into());
+            r.markers.push(("h".into(), "(cat|dog)".into()));
+        }),
+    );
     // ips
     add(2, "ip=in10/8", Box::new(|r| r.ips = Some(vec![(true, "10.0.0.0/8".into())])));
     add(2, "ip=notin10/8", Box::new(|r| r.ips = Some(vec![(false, "10.0.0.0/8".into())])));
@@ -714,6 +724,14 @@ pub fn deviations() -> Vec<(usize, String, Box<dyn Fn(&mut RuleSpec) + Send + Sy
         "path=/@m",
         Box::new(|r| {
             r.path = "/@m".into();
+            r.markers.push(("m".into(), "[a-z]+".into()));
+        }),
+    );
+    add(
+        6,
+        "path=/A/@m(upper-case literal)",
+        Box::new(|r| {
+            r.path = "/A/@m".into();
             r.markers.push(("m".into(), "[a-z]+".into()));
         }),
     );
